@@ -95,6 +95,21 @@ class Gen:
         self.check = check
 
 
+def list_joined(it, lv):
+    """''.join(lv) for a list of strings / bytes whose contents are tracked as one descriptor, else None"""
+    if not isinstance(lv, ListV):
+        return None
+    if lv.items is not None:
+        out = None
+        for x in lv.items:
+            x = it.resolve(x)
+            if not isinstance(x, SeqV) or (out is not None and x.kind != out.kind):
+                return None
+            out = x if out is None else seqops.concat(it, out, x)
+        return out if out is not None else getattr(lv, 'joined', None) or SeqV(getattr(lv, 'joined_kind', 'str'), ())
+    return getattr(lv, 'joined', None)
+
+
 class LoopMixin:
 
     # ------------------------------------------------------------------ while
@@ -114,6 +129,10 @@ class LoopMixin:
                 snap[('local', n)] = v
                 if len(v.segs) == 1 and isinstance(v.segs[0], Sl):
                     snap[('start', n)] = v.segs[0].lo
+            elif isinstance(v, ListV) and v.items is not None and len(v.items) <= 8:
+                j = list_joined(self, v)
+                if j is not None:
+                    snap[('ljoin', n)] = j
         if isinstance(fr.self_obj, ObjV):
             for n, v in fr.self_obj.fields.items():
                 if isinstance(v, IntV):
@@ -205,6 +224,10 @@ class LoopMixin:
         for n in sorted(names):
             if n in fr.locals and n not in extra_targets:
                 keys.append(('local', n))
+                lv = self.resolve(fr.locals[n])
+                # a list of strings rebound and grown by the loop: its concatenation is tracked like a string accumulator
+                if isinstance(lv, ListV) and any(m[0] == 'local' and m[1] == n for m in mutated) and list_joined(self, lv) is not None:
+                    keys.append(('ljoin', n))
         self_attrs = set(a for (b, a) in attrs if b == 'self')
         self_attrs |= self._callee_attr_writes(body)
         obj = fr.self_obj
@@ -215,6 +238,8 @@ class LoopMixin:
 
     def _read_key(self, k):
         fr = self.frames[-1]
+        if k[0] == 'ljoin':
+            return list_joined(self, self.resolve(fr.locals.get(k[1])))
         if k[0] == 'clocal':
             return k[2].locals.get(k[1])
         if k[0] == 'cattr':
@@ -231,6 +256,11 @@ class LoopMixin:
 
     def _write_key(self, k, v):
         fr = self.frames[-1]
+        if k[0] == 'ljoin':
+            lv = self.resolve(fr.locals.get(k[1]))
+            if isinstance(lv, ListV):
+                lv.joined = v
+            return
         if k[0] == 'clocal':
             k[2].locals[k[1]] = v
             return
@@ -377,6 +407,32 @@ class LoopMixin:
                     pass
                 return Gen(pre_r, chkc)
             return Gen(SymV(self.fresh(f'{key[1]}@loop'), 'any'), lambda new: None)
+        if isinstance(pre_r, ListV) and list_joined(self, pre_r) is not None and level <= 2 and \
+                (id(node), ('ljoin', key[1])) in getattr(self, '_ljoin_keys', set()):
+            n_ = self.fresh(f'{key[1]}@n')
+            self.store.declare(n_, 0, None, info=f'len({key[1]}) at loop head')
+            lv = ListV(items=None, elem=self.join_many(pre_r.items) if pre_r.items else pre_r.elem, length=Lin.sym(n_))
+            lv.loop_open = True
+            lv.joined = list_joined(self, pre_r)
+            mk = (id(node), key, 'minlen')
+            lv.min_elem = it.an.widen.get(mk)
+            lv.len_head = Lin.sym(n_)
+
+            def chkl(new):
+                new = it.resolve(new)
+                if not (isinstance(new, ListV) and list_joined(it, new) is not None):
+                    request(3)
+                    return
+                # every element is at least min_elem long (needed to conclude "non-empty list => non-empty text")
+                m = getattr(new, 'min_elem', None)
+                if new.items is not None:
+                    ls = [it.store.lo(it.resolve(x).length()) for x in new.items]
+                    m = min([x for x in ls if x is not None], default=None) if ls and None not in ls else (None if ls else lv.min_elem)
+                if lv.min_elem is not None and (m is None or m < lv.min_elem):
+                    it.an.widen_requests[mk] = m if m is not None else 0
+                elif lv.min_elem is None and m:
+                    it.an.widen_requests[mk] = m
+            return Gen(lv, chkl)
         if isinstance(pre_r, (ListV, DictV, ObjV, FileV, FuncV, ClassV, ModV, ExtV, PyLit)):
             def chko(new):
                 if new is not pre_r:
@@ -410,11 +466,34 @@ class LoopMixin:
         self._cur_mods = set(keys)
         pre = {k: self._read_key(k) for k in keys}
         gens = {}
+        self._ljoin_keys = {(id(st), k) for k in keys if k[0] == 'ljoin'}
         for k in keys:
             gens[k] = self.generalise(st, k, pre[k])
             if gens[k].value is not None:
                 self._write_key(k, gens[k].value)
         self._havoc_containers(mutated, st)
+        # Houdini candidates: an integer that equals the length of a text accumulator on entry keeps doing so
+        eqs = []
+        for ki in keys:
+            gi, pi = gens[ki].value, self.resolve(pre[ki]) if pre[ki] is not None else None
+            if not (isinstance(gi, IntV) and isinstance(pi, IntV) and ki[0] in ('local', 'attr')):
+                continue
+            for ks in keys:
+                gs, ps = gens[ks].value, self.resolve(pre[ks]) if pre[ks] is not None else None
+                if not (isinstance(gs, SeqV) and isinstance(ps, SeqV) and ks[0] in ('local', 'ljoin')):
+                    continue
+                dk = (id(st), ki[:2], 'eqlen:' + repr(ks[:2]))
+                if self.an.widen.get(dk) or self.store.decide_eq0(pi.lin - ps.length()) is not True:
+                    continue
+                if self.store.decide_eq0(gi.lin - gs.length()) is True:
+                    continue
+                try:
+                    self.store.assume_eq0(gi.lin - gs.length())
+                except Exception:
+                    continue
+                eqs.append((dk, ki, ks))
+        self._eq_candidates = getattr(self, '_eq_candidates', {})
+        self._eq_candidates[id(st)] = eqs
         hook = self.an.hooks.get('loop_head')
         if hook is not None:
             hook(self, st, pre, {k: g.value for k, g in gens.items()})
@@ -426,6 +505,10 @@ class LoopMixin:
         post = {k: self._read_key(k) for k in keys}
         for k in keys:
             gens[k].check(post[k])
+        for dk, ki, ks in getattr(self, '_eq_candidates', {}).get(id(st), ()):
+            a, b = self.resolve(post.get(ki)), self.resolve(post.get(ks))
+            if not (isinstance(a, IntV) and isinstance(b, SeqV) and self.store.decide_eq0(a.lin - b.length()) is True):
+                self.an.widen_requests[dk] = 1
         self.event('loop-back', st, post=post, gen={k: g.value for k, g in gens.items()},
                    files={id(f): (f, f.pos) for f in self.all_files})
         raise LoopBack(st)
